@@ -91,6 +91,12 @@ def run_pelt(
     # Evolving set of admissible segment starts.
     cost_eval_starts = np.array(([0]), dtype=np.int64)
 
+    # Starts whose pruning has been decided but not yet applied. A start pruned at
+    # observation t can only be replaced by a segment starting at t + 1, which is
+    # not admissible before t + min_segment_length, so the removal is delayed by
+    # min_segment_length - 1 iterations.
+    pending_prunes = []
+
     observation_indices = np.arange(2 * min_segment_length - 1, num_obs).reshape(-1, 1)
     for current_obs_ind in observation_indices:
         latest_start = current_obs_ind - min_segment_shift
@@ -109,9 +115,13 @@ def run_pelt(
         prev_cpts[current_obs_ind] = cost_eval_starts[argmin_candidate_cost]
 
         # Trimming the admissible starts set: (reuse the array of optimal costs)
-        cost_eval_starts = cost_eval_starts[
+        keep = (
             candidate_opt_costs + split_cost <= opt_cost[current_obs_ind + 1] + penalty
-        ]
+        )
+        pending_prunes.append(cost_eval_starts[~keep])
+        if len(pending_prunes) >= min_segment_length:
+            prune_now = pending_prunes.pop(0)
+            cost_eval_starts = cost_eval_starts[~np.isin(cost_eval_starts, prune_now)]
 
     return opt_cost[1:], get_changepoints(prev_cpts)
 
